@@ -364,3 +364,85 @@ func VerifInlineable(pageSize int, sizes [][2]int, hasBucket bool) bool {
 	b.rootNode = n
 	return b.inlineable()
 }
+
+// VerifNodeTree serialises the bucket's B+tree with the in-memory node state the write
+// transaction keeps for it, in prefix form:
+//
+//	L <pgid> <mat> <unb> <nodekey> <n> {<hexkey> <val> <flags>}*n
+//	B <pgid> <mat> <unb> <nodekey> <n> {<hexsep> <subtree>}*n
+//
+// mat = 1 when the page is materialised as a node (then unb = node.unbalanced and nodekey =
+// node.key); "-" is the empty byte string; a value is hex, or "*<len>:<hh>" when it is longer
+// than 32 bytes and consists of one repeated byte.
+func (b *Bucket) VerifNodeTree() string {
+	var sb []byte
+	const digits = "0123456789abcdef"
+	hx := func(x []byte) string {
+		if len(x) == 0 {
+			return "-"
+		}
+		out := make([]byte, 0, 2*len(x))
+		for _, c := range x {
+			out = append(out, digits[c>>4], digits[c&15])
+		}
+		return string(out)
+	}
+	val := func(x []byte) string {
+		if len(x) > 32 {
+			same := true
+			for _, c := range x {
+				if c != x[0] {
+					same = false
+					break
+				}
+			}
+			if same {
+				return fmt.Sprintf("*%d:%c%c", len(x), digits[x[0]>>4], digits[x[0]&15])
+			}
+		}
+		return hx(x)
+	}
+	bit := func(v bool) int {
+		if v {
+			return 1
+		}
+		return 0
+	}
+	var walk func(id common.Pgid)
+	walk = func(id common.Pgid) {
+		p, n := b.pageNode(id)
+		if n != nil {
+			if n.isLeaf {
+				sb = append(sb, fmt.Sprintf("L %d 1 %d %s %d ", n.pgid, bit(n.unbalanced), hx(n.key), len(n.inodes))...)
+				for i := range n.inodes {
+					in := &n.inodes[i]
+					sb = append(sb, fmt.Sprintf("%s %s %d ", hx(in.Key()), val(in.Value()), in.Flags())...)
+				}
+				return
+			}
+			sb = append(sb, fmt.Sprintf("B %d 1 %d %s %d ", n.pgid, bit(n.unbalanced), hx(n.key), len(n.inodes))...)
+			for i := range n.inodes {
+				in := &n.inodes[i]
+				sb = append(sb, (hx(in.Key()) + " ")...)
+				walk(in.Pgid())
+			}
+			return
+		}
+		if p.IsLeafPage() {
+			sb = append(sb, fmt.Sprintf("L %d 0 0 - %d ", id, p.Count())...)
+			for i := 0; i < int(p.Count()); i++ {
+				e := p.LeafPageElement(uint16(i))
+				sb = append(sb, fmt.Sprintf("%s %s %d ", hx(e.Key()), val(e.Value()), e.Flags())...)
+			}
+			return
+		}
+		sb = append(sb, fmt.Sprintf("B %d 0 0 - %d ", id, p.Count())...)
+		for i := 0; i < int(p.Count()); i++ {
+			e := p.BranchPageElement(uint16(i))
+			sb = append(sb, (hx(e.Key()) + " ")...)
+			walk(e.Pgid())
+		}
+	}
+	walk(b.RootPage())
+	return string(sb)
+}
